@@ -405,7 +405,52 @@ func c05ExprCheck(in c05ExprInput) (key, what string) {
 	return "", ""
 }
 
+// c05ZeroWidth: an implicit empty statement (what a label before a closing brace parses to, what
+// blanking a statement out leaves behind) prints nothing: NewLine spacing around it must not add
+// up to a blank line -- "directly after a line break" has to survive a node that emits no byte
+func c05ZeroWidth(c *Ctx) {
+	src := "package a\n\nfunc f() {\n\te0()\n\te2()\n}\n"
+	for b := 0; b < 2; b++ {
+		for a := 0; a < 2; a++ {
+			for _, labeled := range []bool{false, true} {
+				f, err := decorator.Parse(src)
+				if err != nil {
+					return
+				}
+				body := f.Decls[0].(*dst.FuncDecl).Body
+				es := &dst.EmptyStmt{Implicit: true}
+				es.Decs.Before = dst.SpaceType(b)
+				es.Decs.After = dst.SpaceType(a)
+				want := src
+				var mid dst.Stmt = es
+				if labeled {
+					// L: <implicit empty statement> at the end of the block
+					ls := &dst.LabeledStmt{Label: dst.NewIdent("L"), Stmt: es}
+					ls.Decs.Before = dst.NewLine
+					ls.Decs.After = dst.NewLine
+					body.List = append(body.List, ls)
+					want = "package a\n\nfunc f() {\n\te0()\n\te2()\nL:\n}\n"
+				} else {
+					body.List = []dst.Stmt{body.List[0], mid, body.List[1]}
+				}
+				in := map[string]string{"src": src, "edit": fmt.Sprintf("implicit empty statement (labeled at the end of the block: %v) with Before=%d After=%d", labeled, b, a)}
+				c.Res.Evaluations++
+				c.Res.hist("c05-kind", "zero-width node")
+				out, perr, pm := printDst(f)
+				if pm != "" || perr != nil {
+					c.Res.fail("c05-zero-width", fmt.Sprintf("print failed: %v %s", perr, pm), in)
+					continue
+				}
+				if out != want {
+					c.Res.fail("c05-zero-width", "NewLine spacing around a node that prints nothing adds up:\n"+firstDiff(want, out), in)
+				}
+			}
+		}
+	}
+}
+
 func c05Prop(c *Ctx) {
+	c05ZeroWidth(c)
 	c.Res.Rule = "five own-line list kinds (stmt, decl, field, spec, case) x n in 1..4 elements: exhaustive over Before/After in {None,NewLine,EmptyLine}^2 for pairs (n=2, all 81 x 9 Start/End decoration choices on the boundary), random for n=3,4; plus call/composite-literal lists with NewLine; non-trivial = distinct assignment"
 	kinds := []string{"stmt", "decl", "field", "spec", "case", "rawstmt"}
 	run := func(in c05Input) {
@@ -498,6 +543,9 @@ func c05Prop(c *Ctx) {
 func init() {
 	props["C05"] = c05Prop
 	replays["C05"] = func(c *Ctx, raw json.RawMessage) (bool, string) {
+		if handled, fails, msg := replayFixed(c, raw, c05ZeroWidth); handled {
+			return fails, msg
+		}
 		var in c05Input
 		if err := json.Unmarshal(raw, &in); err == nil && in.Kind != "" {
 			key, what := c05Check(in)
